@@ -69,10 +69,10 @@ def cases(draw, tier, fast):
         text = draw(gens.any_strings(16))
     check_kind = draw(st.sampled_from(["none", "none", "right", "right", "wrong", "wrong_length", "foreign", "empty"]))
     check_len = draw(st.integers(1, 6))
-    extra = draw(st.sampled_from([0, 0, 0, 1, 2, 5]))
+    extra = draw(st.sampled_from([0, 0, 0, 1, 2, 5, -1, -2, -7]))  # negative: fewer bits than the walk's value needs
     return {"graph": graph, "text": text, "table": draw(gens.tables(graph["k"])), "fast": fast,
             "check_kind": check_kind, "check_len": check_len, "extra": extra,
-            "salt": draw(st.integers(0, 2 ** 16))}
+            "salt": draw(st.integers(0, 2 ** 16)), "np_start": draw(st.sampled_from([False, False, True]))}
 
 
 def build_check(case):
@@ -114,12 +114,16 @@ def evaluate(case):
             if o.out_degree(rows, v) == 3:
                 return discard("out_degree_3_in_fast_mode")
     else:
-        width = o.digits_value(digits).bit_length() + case["extra"]
+        width = max(0, o.digits_value(digits).bit_length() + case["extra"])
+    if fast and case["extra"] < 0:
+        width = len(carried)  # fast mode: strings carrying more bits than requested are outside the statement
     check = build_check(case)
     acgt = all(c in o.NUC and len(c) == 1 for c in text)
     check_ok = check is None or (len(check) > 0 and acgt and o.ref_vt(text, len(check)) == check)
     expected_accept = walk and check_ok
     labels = ["fast" if fast else "normal", "check:" + case["check_kind"], "k=%d" % k]
+    if not fast and case["extra"] < 0 and width < o.digits_value(digits).bit_length():
+        labels.append("width_smaller_than_value")
     if walk:
         site = "accept" if check_ok else "reject:check_only"
     else:
@@ -164,7 +168,8 @@ def s_fast(tier):
 
 
 FLOORS = {"foreign_at_deg1": 60, "foreign_at_branching": 60, "accept": 200, "reject:branching": 100, "reject:deg1": 60, "reject:dead_vertex": 40,
-          "reject:check_only": 60, "reject:foreign_char": 60, "reject_pos>0": 150, "check:empty": 150}
+          "reject:check_only": 60, "reject:foreign_char": 60, "reject_pos>0": 150, "check:empty": 150,
+          "width_smaller_than_value": 150}
 
 SUBCHECKS = [
     SubCheck("normal", evaluate, strategy=s_normal, examples=(5000, 50000), shards=(16, 16), floors=FLOORS, rule=RULE),
